@@ -207,3 +207,22 @@ pub fn find_extra_image(name: &str) -> Option<ImageSet> {
         _ => None,
     }
 }
+
+/// refblock slices and L2 slices of different sizes (every other geometry uses one size for both):
+/// 1 KiB clusters; `l2_bits`/`rb_bits` are the slice sizes. A few data clusters, then free clusters
+/// holding junk (where the next L2 table and data cluster are allocated), then more data.
+pub fn mixed_slice_geo(l2_bits: u8, rb_bits: u8, tables: u64) -> Geo {
+    Geo { name: "G10mix", cluster_bits: 10, order: 4, version: 3, bs_bits: 9, l2_slice_bits: l2_bits, rb_slice_bits: rb_bits, tables, extra_clusters: 0 }
+}
+
+pub fn mixed_slice_image(g: &Geo) -> ImageSet {
+    let mut s = ImageSpec::new(g.cluster_bits, g.order, g.vsize());
+    let ncl = s.guest_clusters();
+    s.kinds = vec![GKind::Unalloc; ncl];
+    for c in 0..8 {
+        s.kinds[c] = GKind::Data;
+    }
+    s.skip_host = vec![6, 7, 8, 9];
+    s.free_junk = true;
+    from_specs(&format!("G10mix-l2s{}-rbs{}", g.l2_slice_bits, g.rb_slice_bits), "mixed-slices", vec![s])
+}
